@@ -270,6 +270,45 @@ def native_sweep(pid, seed, tier):
     return len(inputs), fails
 
 
+def reader_sweep(seed, tier):
+    """BOUNDED native stand-in for C19's fault half: Frame::from_reader under every placement of one
+    Interrupted error / one short read (call index 0..=15), all-single-byte reads, and pairs of
+    interrupts, on corpus frames of every format.  CBMC cannot follow error values (measured)."""
+    import diffcheck
+    import subprocess
+    o = [x for x in registry.OBL if x["name"] == "reader_any_native"]
+    n = 600 if tier == "quick" else 6000
+    frames = [bytes.fromhex(h) for h in diffcheck.corpus(n, seed or 1)]
+    frames = [f for f in frames if 0 < len(f) <= 32]
+    inputs = []
+    for f in frames:
+        inputs.append(bytes([len(f), 0, 0, 0]) + f)
+        for k in range(0, 16):
+            inputs.append(bytes([len(f), 1, k, 0]) + f)
+            inputs.append(bytes([len(f), 2, k, 0]) + f)
+    sc = build.make_scratch(o, "native")
+    fails = []
+    try:
+        exe = build.build_native(sc)
+        p = subprocess.run([exe, "reader_any_native", "-"], input="\n".join(i.hex() for i in inputs) + "\n",
+                           capture_output=True, text=True, timeout=1800)
+        lines = [l for l in p.stdout.splitlines() if l.startswith("LINE ")]
+        if len(lines) != len(inputs):
+            raise Undecided("reader sweep produced %d lines for %d inputs" % (len(lines), len(inputs)))
+        for l in lines:
+            parts = l.split(" ", 2)
+            rest = parts[2] if len(parts) > 2 else ""
+            if rest.startswith("PANIC"):
+                fails.append((parts[1], ["[C19] PANIC " + rest[6:]]))
+            else:
+                m = re.match(r"checks=(\d+) outside=(\w+) failed=(\d+) ?(.*)", rest)
+                if m and int(m.group(3)) > 0:
+                    fails.append((parts[1], m.group(4).split(" ;; ")))
+    finally:
+        sc.cleanup()
+    return len(inputs), fails
+
+
 def check_property(pid, tier):
     t0 = time.time()
     seed = int(os.environ.get("VERIF_SEED", "0") or 0)
@@ -379,6 +418,10 @@ def check_property(pid, tier):
                    "names": [o["name"] for o in nb][:40]}
     sweep_info = None
     sweep_viol = []
+    if pid == "C19":
+        n_eval, sf = reader_sweep(seed, tier)
+        sweep_info = {"what": "BOUNDED native sweep (real deku): Frame::from_reader vs Frame::from_bytes under all-single-byte reads, one short read at call 0..15, one Interrupted error at call 0..15, over corpus frames of every format", "evaluations": n_eval, "failures": len(sf)}
+        sweep_viol = [(hx, cl) for hx, cl in sf][:5]
     if pid == "C02":
         n_eval, sf = native_sweep(pid, seed, tier)
         mine = [(hx, [c for c in cl if TAG_RE.match(c) and pid in TAG_RE.match(c).group(1).split(",")]) for hx, cl in sf]
@@ -427,11 +470,12 @@ def check_property(pid, tier):
 
     known_all = known
     for hx, cl in sweep_viol:
-        unknown = [c for c in cl if not any(kf_match(k, "frame_any_native", c) for k in known_all)]
+        sweep_name = "reader_any_native" if pid == "C19" else "frame_any_native"
+        unknown = [c for c in cl if not any(kf_match(k, sweep_name, c) for k in known_all)]
         if not unknown:
             lines.append("KNOWN-FINDING: property=%s %s input=%s" % (pid, cl[0], hx))
             continue
-        payload = {"property": pid, "obligation_harness": "frame_any_native", "features": "std", "input_hex": hx,
+        payload = {"property": pid, "obligation_harness": sweep_name, "features": "std", "input_hex": hx,
                    "failed_obligations": [{"clause": c} for c in cl], "note": "found by the bounded native sweep (real code, real deku)"}
         path = common.write_replay(pid, "sweep-" + hx[:40], payload)
         n_viol += 1
